@@ -45,6 +45,15 @@ type input struct {
 	//                                  odd-percent | odd-bracket | relative | dotdot | relative-dotdot | nowrite (non-root only)
 	Caller string   `json:"caller,omitempty"` // state of os.Stdout / os.Stderr of the process that makes the call:
 	//                                  "" (the harness' own) | closed | devfull | pipe-unread | devnull
+	// Exe kinds of the class start-fails-transiently (the command is a freshly written script that execs the child):
+	//   busy-window        still open for writing by the harness when the call is made, closed some tens of ms later
+	//                      (exec fails with ETXTBSY while it is open)
+	//   busy-closed-before written and closed before the call (ordinary)
+	//   busy-never-closed  open for writing until the call has returned
+	//   not-executable     mode 0644 until the call has returned
+	Observed string `json:"observed,omitempty"` // busy-window only: did the call report a start error ("not-started") or a
+	//                                  result ("started")? the OS decides that race; the oracle allows both (see oracle)
+	exePath string // run-time only: where the fresh script is
 	Stdin string `json:"stdin,omitempty"` // standard input of the process that makes the call: "" (the harness' own) |
 	//                                  pipe-idle (open, nothing ever arrives) | pipe-pending (data waiting, writer still open) |
 	//                                  pipe-pending-closed (data waiting, then EOF) | socketpair (idle) | devnull | closed | file
@@ -180,6 +189,18 @@ func (in input) startable() bool {
 		return in.Dir != "missing"
 	case "rel-copy", "rel-sub":
 		return hasCopies(in.Dir)
+	case "busy-closed-before":
+		return in.Dir != "missing"
+	case "busy-window":
+		return in.Observed != "not-started"
+	}
+	return false
+}
+
+func (in input) fresh() bool {
+	switch in.Exe {
+	case "busy-window", "busy-closed-before", "busy-never-closed", "not-executable":
+		return true
 	}
 	return false
 }
@@ -203,6 +224,11 @@ func (in input) args() []string {
 		exe = "./child-copy"
 	case "rel-sub":
 		exe = "sub/child"
+	case "busy-window", "busy-closed-before", "busy-never-closed", "not-executable", "fresh-run":
+		exe = in.exePath
+		if exe == "" {
+			exe = filepath.Join(workDir, "fresh-<n>", "build.sh")
+		}
 	}
 	a := []string{exe, "d" + hex.EncodeToString([]byte(cwd))}
 	return append(a, in.Script...)
@@ -434,9 +460,72 @@ func runWithCaller(in input) string {
 	return string(b)
 }
 
+// runFresh: the command is a script written just now.  For busy-window the call is repeated (up to 5
+// times, holding the file open for 20..80 ms) until the busy window is hit, i.e. until the outcome is
+// anything but the exact result of an unhindered run.
+func runFresh(in input) string {
+	body := "#!/bin/sh\nexec '" + strings.ReplaceAll(childBin, "'", "'\\''") + "' \"$@\"\n"
+	one := func(holdMs int) string {
+		tmp, err := os.MkdirTemp(workDir, "fresh-")
+		if err != nil {
+			panic(err)
+		}
+		defer os.RemoveAll(tmp)
+		in.exePath = filepath.Join(tmp, "build.sh")
+		mode := os.FileMode(0o755)
+		if in.Exe == "not-executable" {
+			mode = 0o644
+		}
+		if in.Exe == "busy-closed-before" {
+			// no child forked concurrently by another goroutine may inherit the descriptor the script is
+			// written through (go.dev/issue/22315): forks are held off until it is closed again
+			syscall.ForkLock.RLock()
+		}
+		f, err := os.OpenFile(in.exePath, os.O_CREATE|os.O_WRONLY, mode)
+		if err != nil {
+			panic(err)
+		}
+		f.WriteString(body)
+		stop := make(chan struct{})
+		closed := make(chan struct{})
+		switch in.Exe {
+		case "busy-closed-before":
+			f.Close()
+			syscall.ForkLock.RUnlock()
+			close(closed)
+		case "busy-window":
+			go func() { time.Sleep(time.Duration(holdMs) * time.Millisecond); f.Close(); close(closed) }()
+		default: // busy-never-closed, not-executable: until the call is over
+			go func() { <-stop; f.Close(); close(closed) }()
+		}
+		in2 := in
+		in2.Exe, in2.exePath = "fresh-run", in.exePath
+		r := runImpl(in2)
+		close(stop)
+		<-closed
+		return r
+	}
+	if in.Exe != "busy-window" {
+		return one(0)
+	}
+	started := in
+	started.Observed = "started"
+	exact := oracle(started)
+	r := ""
+	for _, hold := range []int{20, 30, 40, 60, 80} {
+		if r = one(hold); r != exact {
+			return r // the window was hit: a start error, or a result that is not the process's
+		}
+	}
+	return r
+}
+
 func runImpl(in input) string {
 	if in.Caller != "" || in.Stdin != "" {
 		return runWithCaller(in)
+	}
+	if in.fresh() {
+		return runFresh(in)
 	}
 	args := in.args()
 	dir := dirPath(in.Dir)
@@ -499,6 +588,12 @@ func oracle(in input) string {
 	if in.API == "InTotoRun" && (in.Exe == "none" || in.Exe == "nil") {
 		return "OK n=0 rv=? out=? err=?" // no command: empty by-products
 	}
+	// start-fails-transiently (busy-window): whether exec hits the moment in which the script is still
+	// open for writing is decided by the OS and the scheduler.  The property allows exactly two
+	// outcomes: the command is reported as not startable (an error), or a result comes back and then
+	// it is the process's own - exact exit status, complete streams.  Which of the two applies is
+	// taken from the observation (in.Observed: did a result come back?); "it ran and exited 0 but
+	// -1 / other output is recorded" contradicts both.
 	if !in.startable() {
 		return "ERR"
 	}
@@ -864,6 +959,21 @@ func gen(r *lib.Rng, tier string) []gcase {
 		out[len(out)-1].in.Stdin = k
 	}
 
+	// the command is a script written a moment ago: still open for writing when the call is made
+	// (ETXTBSY) and released a few tens of ms later; released before; never released; not yet executable
+	for _, sc := range [][]string{{}, {"o100", "x0"}, {"o300000", "e100", "x0"}, {"o100", "x7"}, {"e300000", "o3", "x7"}} {
+		add("start-fails-transiently", R, "busy-window", inh, sc...)
+		add("start-fails-transiently-control", R, "busy-closed-before", inh, sc...)
+	}
+	add("start-fails-transiently", I, "busy-window", inh, "o100", "e100", "x0")
+	add("start-fails-transiently", I, "busy-window", "plain", "o300000", "x0")
+	add("start-fails-transiently", "RunInspections", "busy-window", "plain", "o100", "x0")
+	add("start-fails-transiently-control", I, "busy-closed-before", "space", "o100", "e100", "x7")
+	add("start-fails-for-good", R, "busy-never-closed", inh, "o100", "x0")
+	add("start-fails-for-good", I, "busy-never-closed", inh, "o100", "x7")
+	add("start-fails-for-good", R, "not-executable", inh, "o100", "x0")
+	add("start-fails-for-good", I, "not-executable", "plain", "x7")
+
 	// --- random interleavings ---
 	for i := 0; i < nRandom; i++ {
 		rr := r.Fork()
@@ -997,6 +1107,12 @@ func main() {
 			go func(i int) {
 				defer wg.Done()
 				impl[i] = runImpl(cases[i].in)
+				if cases[i].in.Exe == "busy-window" {
+					cases[i].in.Observed = "started"
+					if impl[i] == "ERR" {
+						cases[i].in.Observed = "not-started"
+					}
+				}
 				<-sem
 			}(i)
 		}
@@ -1064,7 +1180,14 @@ func main() {
 			panic(err)
 		}
 		fmt.Println("argv:      " + strings.Join(c.Input.args(), " ") + "   dir=" + strconv.Quote(dirPath(c.Input.Dir)))
-		fmt.Println("impl:      " + runImpl(c.Input))
+		im := runImpl(c.Input)
+		if c.Input.Exe == "busy-window" {
+			c.Input.Observed = "started"
+			if im == "ERR" {
+				c.Input.Observed = "not-started"
+			}
+		}
+		fmt.Println("impl:      " + im)
 		fmt.Println("oracle:    " + oracle(c.Input))
 		fmt.Println("coq_model: " + coqModel(c.Input))
 		fmt.Println("coq_spec:  " + coqSpec(c.Input))
